@@ -1,6 +1,7 @@
 SPECIFICATION DSpec
 CONSTANTS
   MaxRank = 2
+  Variant = "none"
   MaxChain = 1
   MaxIters = {0, 1, 2}
   MaxFuns = {1, 2, 4}
